@@ -3,6 +3,7 @@ package main
 import (
 	"fmt"
 	"go/token"
+	"go/types"
 	"sort"
 	"strings"
 
@@ -276,7 +277,16 @@ func c06R2(c *Ctx, rule string) {
 		c.Bad(rule, "seal/open calls", c.atFn(mk), "AESGCMEncrypt/AESGCMDecrypt not found")
 		return
 	}
-	nonce12 := func(v ssa.Value, field string) bool {
+	// the carrier fields by role (rename tolerant): ephemeral public key, ECDH secret, sealed block — on both sides
+	sRand := p.Field("internal/server", "authFragments", "randPubKey")
+	sSecret := p.Field("internal/server", "authFragments", "sharedSecret")
+	sCt := p.Field("internal/server", "authFragments", "ciphertextWithTag", "[64]byte")
+	cRand := p.Field("internal/client", "authenticationPayload", "randPubKey", "[32]byte")
+	if sRand == nil || sSecret == nil || sCt == nil || cRand == nil {
+		c.Undecided(rule, "anchor fields authFragments.{randPubKey,sharedSecret,ciphertextWithTag} / authenticationPayload.randPubKey", "-", "not found")
+		return
+	}
+	nonce12 := func(v ssa.Value, field *types.Var) bool {
 		sl, ok := v.(*ssa.Slice)
 		if !ok || sl.High == nil {
 			return false
@@ -287,10 +297,10 @@ func c06R2(c *Ctx, rule string) {
 			lo, _ = intConst(sl.Low)
 		}
 		fv, _ := fieldVar(sl.X)
-		return lo == 0 && hi == 12 && fv != nil && fv.Name() == field
+		return lo == 0 && hi == 12 && fv != nil && fv == field
 	}
-	c.Check(nonce12(enc.Call.Args[0], "randPubKey") && strings.Contains(Expr(enc.Call.Args[1]), "sharedSecret"), rule, "client seals with nonce randPubKey[:12], key sharedSecret", c.at(enc), Expr(enc), "client seals with nonce "+Expr(enc.Call.Args[0])+" / key "+Expr(enc.Call.Args[1]))
-	c.Check(nonce12(dcall.Call.Args[0], "randPubKey") && strings.Contains(Expr(dcall.Call.Args[1]), "sharedSecret") && strings.Contains(Expr(dcall.Call.Args[2]), "ciphertextWithTag"), rule, "server opens with nonce randPubKey[0:12], key sharedSecret", c.at(dcall), "AESGCMDecrypt(randPubKey[0:12], sharedSecret[:], ciphertextWithTag[:])", "server opens with "+Expr(dcall))
+	c.Check(nonce12(enc.Call.Args[0], cRand) && mentionsCallTo(enc.Call.Args[1], "ecdh.GenerateSharedSecret"), rule, "client seals with nonce randPubKey[:12], key sharedSecret", c.at(enc), Expr(enc), "client seals with nonce "+Expr(enc.Call.Args[0])+" / key "+Expr(enc.Call.Args[1]))
+	c.Check(nonce12(dcall.Call.Args[0], sRand) && mentionsField(dcall.Call.Args[1], sSecret) && mentionsField(dcall.Call.Args[2], sCt), rule, "server opens with nonce randPubKey[0:12], key sharedSecret", c.at(dcall), "AESGCMDecrypt(randPubKey[0:12], sharedSecret[:], ciphertextWithTag[:])", "server opens with "+Expr(dcall))
 	// shared secret derivations
 	if gs := findCall(mk, "ecdh.GenerateSharedSecret"); gs != nil {
 		okC := strings.Contains(Expr(gs.Call.Args[1]), "ServerPubKey") && strings.Contains(Expr(gs.Call.Args[0]), "GenerateKey")
@@ -304,15 +314,15 @@ func c06R2(c *Ctx, rule string) {
 			c.Undecided(rule, "anchor "+fn, "-", "not found")
 			continue
 		}
-		gs := findCall(f, "ecdh.GenerateSharedSecret")
+		gs := p.unitFindCall(f, "ecdh.GenerateSharedSecret")
 		ok := false
 		if gs != nil {
-			// (staticPv param, ephPub = Unmarshal(randPubKey[:])#0)
+			// (staticPv param, ephPub = Unmarshal(randPubKey[:])#0) — possibly inside a helper split off from f
 			if ex, isEx := gs.Call.Args[1].(*ssa.Extract); isEx && ex.Index == 0 {
 				if um, isC := ex.Tuple.(*ssa.Call); isC && strings.HasSuffix(calleeName(&um.Call), "ecdh.Unmarshal") {
 					if sl, isSl := um.Call.Args[0].(*ssa.Slice); isSl {
-						if fv, _ := fieldVar(sl.X); fv != nil && fv.Name() == "randPubKey" {
-							ok = gs.Call.Args[0] == ssa.Value(f.Params[len(f.Params)-1])
+						if fv, _ := fieldVar(sl.X); fv != nil && fv == sRand {
+							ok = p.canonIn(f, gs.Call.Args[0]) == ssa.Value(f.Params[len(f.Params)-1])
 						}
 					}
 				}
@@ -325,6 +335,23 @@ func c06R2(c *Ctx, rule string) {
 func c06R3(c *Ctx, rule string) {
 	c.Rule(rule, "carriers: client places public key / ct[0:32] / ct[32:64] in random / session id / key share; server reads the same three; CDN header name and base64(key‖ct) split at 32 agree", 3)
 	p := c.P
+	sRand := p.Field("internal/server", "authFragments", "randPubKey")
+	sCt := p.Field("internal/server", "authFragments", "ciphertextWithTag", "[64]byte")
+	cRand := p.Field("internal/client", "authenticationPayload", "randPubKey", "[32]byte")
+	cCt := p.Field("internal/client", "authenticationPayload", "ciphertextWithTag", "[64]byte")
+	if sRand == nil || sCt == nil || cRand == nil || cCt == nil {
+		c.Undecided(rule, "anchor carrier fields (authFragments / authenticationPayload)", "-", "not found")
+		return
+	}
+	roleName := func(fv *types.Var) string {
+		switch fv {
+		case cRand, sRand:
+			return "randPubKey"
+		case cCt, sCt:
+			return "ciphertextWithTag"
+		}
+		return fv.Name()
+	}
 	hs := c.need(rule, "internal/client", "DirectTLS.Handshake")
 	if hs != nil {
 		got := map[string]string{}
@@ -341,7 +368,7 @@ func c06R3(c *Ctx, rule string) {
 							hi, _ = intConst(sl.High)
 						}
 						if src != nil {
-							got[fv.Name()] = fmt.Sprintf("%s[%d:%d]", src.Name(), lo, hi)
+							got[fv.Name()] = fmt.Sprintf("%s[%d:%d]", roleName(src), lo, hi)
 						}
 					}
 				}
@@ -354,11 +381,13 @@ func c06R3(c *Ctx, rule string) {
 		rnd, ctx := false, false
 		allInstrs(f, func(i ssa.Instruction) {
 			if call, ok := i.(*ssa.Call); ok && calleeName(&call.Call) == "builtin.copy" {
-				d, s := Expr(call.Call.Args[0]), Expr(call.Call.Args[1])
-				if strings.Contains(d, "randPubKey") && strings.HasSuffix(s, ".random") {
+				dst, src := call.Call.Args[0], call.Call.Args[1]
+				chRandom := p.Field("internal/server", "ClientHello", "random")
+				chSession := p.Field("internal/server", "ClientHello", "sessionId")
+				if mentionsField(dst, sRand) && mentionsField(src, chRandom) {
 					rnd = true
 				}
-				if strings.Contains(d, "ciphertextWithTag") && strings.Contains(s, "append(") && strings.Contains(s, "sessionId") && strings.Contains(s, "parseKeyShare") {
+				if mentionsField(dst, sCt) && mentionsCallTo(src, "builtin.append") && mentionsField(src, chSession) && mentionsCallTo(src, "parseKeyShare") {
 					ctx = true
 				}
 			}
@@ -404,9 +433,16 @@ func c06R3(c *Ctx, rule string) {
 		allInstrs(cw, func(i ssa.Instruction) {
 			if call, ok := i.(*ssa.Call); ok && calleeName(&call.Call) == "(net/http.Header).Add" {
 				cn, _ = strConst(call.Call.Args[1])
-				e := Expr(call.Call.Args[2])
-				if strings.Contains(e, "EncodeToString") && strings.Contains(e, "append(") && strings.Index(e, "randPubKey") < strings.Index(e, "ciphertextWithTag") && strings.Contains(e, "randPubKey") {
-					cPayload = true
+				// base64(append(randPubKey[:], ciphertextWithTag[:]...)): key first, sealed block second
+				if mentionsCallTo(call.Call.Args[2], "EncodeToString") {
+					mentions(call.Call.Args[2], func(x ssa.Value) bool {
+						if ap, ok := x.(*ssa.Call); ok && calleeName(&ap.Call) == "builtin.append" && len(ap.Call.Args) == 2 {
+							if mentionsField(ap.Call.Args[0], cRand) && !mentionsField(ap.Call.Args[0], cCt) && mentionsField(ap.Call.Args[1], cCt) {
+								cPayload = true
+							}
+						}
+						return false
+					})
 				}
 			}
 		})
@@ -418,18 +454,27 @@ func c06R3(c *Ctx, rule string) {
 		split := false
 		allInstrs(uh, func(i ssa.Instruction) {
 			if call, ok := i.(*ssa.Call); ok && calleeName(&call.Call) == "builtin.copy" {
-				d, s := Expr(call.Call.Args[0]), Expr(call.Call.Args[1])
-				if strings.Contains(d, "randPubKey") && strings.Contains(s, "[0:32]") {
-					split = true
+				if sl, ok := call.Call.Args[1].(*ssa.Slice); ok && mentionsField(call.Call.Args[0], sRand) {
+					lo, hi := int64(0), int64(-1)
+					if sl.Low != nil {
+						lo, _ = intConst(sl.Low)
+					}
+					if sl.High != nil {
+						hi, _ = intConst(sl.High)
+					}
+					if lo == 0 && hi == 32 {
+						split = true
+					}
 				}
 			}
 		})
 		split2 := false
 		allInstrs(uh, func(i ssa.Instruction) {
 			if call, ok := i.(*ssa.Call); ok && calleeName(&call.Call) == "builtin.copy" {
-				d, s := Expr(call.Call.Args[0]), Expr(call.Call.Args[1])
-				if strings.Contains(d, "ciphertextWithTag") && strings.Contains(s, "[32:]") {
-					split2 = true
+				if sl, ok := call.Call.Args[1].(*ssa.Slice); ok && mentionsField(call.Call.Args[0], sCt) && sl.High == nil && sl.Low != nil {
+					if lo, isK := intConst(sl.Low); isK && lo == 32 {
+						split2 = true
+					}
 				}
 			}
 		})
